@@ -1,4 +1,4 @@
-"""C01 -- rename preserves the program (structural clauses R01.1-R01.9)."""
+"""C01 -- rename preserves the program (structural clauses R01.1-R01.10)."""
 from __future__ import annotations
 
 import ast
@@ -94,6 +94,9 @@ def check(ctx, res) -> None:
     from .c15 import load_positions_rule
 
     load_positions_rule(ctx, res, "R01.9")
+    from .c02 import _same_pyname_strength_rule
+
+    _same_pyname_strength_rule(ctx, res, "R01.10")
 
 
 def _check_main(ctx, res) -> None:
